@@ -12,6 +12,7 @@ from __future__ import annotations
 
 import copy
 import itertools
+import json
 import re
 
 import attr
@@ -29,7 +30,15 @@ RULE = ("cases = validator expression (random trees to depth 4 over instance_of,
         "validators raising any class of a 13-class exception universe, non-callable junk) x root value from a heterogeneous "
         "pool (scalars incl. nan, containers, callables, classes, hostile objects scripting __eq__/__contains__/__len__/"
         "__lt__../__iter__/__getitem__/__hash__) steered towards the parameters x second expression (rebuilt, reordered "
-        "set/dict, re cache purged, parameter or shape changed, unrelated); thorough additionally enumerates every "
+        "set/dict, re cache purged, parameter or shape changed, unrelated) x HISTORY: 0..4 further calls of the same validator object or of "
+        "one freshly built from the same expression, on the same object again, on siblings (same class in another state; equal "
+        "value of another class) and on unrelated values, with changes of the world in between (ABC.register, instance attribute "
+        "set/deleted, list grown) -- types whose isinstance answer depends on the instance or changes over time are in the type pool "
+        "(fresh ABC, runtime_checkable Protocol with a data member, value-dependent __instancecheck__), the oracle is evaluated at "
+        "the time of each call; regexes include anchors under alternation (^ab|cd, ab$|cd, ^\\d+|N/A, ^$|x ...) as text, bytes and "
+        "precompiled, with values derived from what the regex matches (at offset 0, at an offset > 0, before junk, on another line, "
+        "other case); deterministic blocks: the regex pool x flags x func x form, each over the derived values, and scripted "
+        "histories x type pool x wrappers; thorough additionally enumerates every "
         "expression of depth <= 2 over a reduced leaf pool x a reduced value pool; non-trivial = the constructor "
         "succeeded (a call was made); distinct = distinct JSON case")
 ASSUMPTIONS = [
@@ -39,6 +48,10 @@ ASSUMPTIONS = [
     "scripted objects are deterministic and side-effect free, so precomputing a primitive does not disturb the run",
     "the trace of calls is observed for scripted user validators only (shipped leaves are observed through their outcome)",
     "hash equality is compared only between validators that compare equal; unequal validators are not required to differ",
+    "histories: whether a later call uses the same validator object or a freshly built equal one is harness-only variation (the "
+    "model has no state); a changed world is represented as a new value id with its own oracle rows, evaluated by plain Python at "
+    "the time of that call on the oracle side and replayed identically on the observing side; classes whose isinstance answers "
+    "can change are created afresh per case",
     "exceptions are compared by exact class within a 13-class universe (TypeError, NotCallableError, ValueError, KeyError, "
     "IndexError, AttributeError, ZeroDivisionError, RuntimeError, re.error and user subclasses of TypeError / ValueError / "
     "Exception / BaseException); anything else is reported as `other` and never matches the model",
@@ -137,6 +150,18 @@ TYPES = [
 ]
 
 
+WORLD_TYPES = [
+    # (type descriptor, value descriptors whose isinstance answer differs / can change, kind)
+    (["wabc", "Shape"], [["winst", "Circle", []], ["winst", "Circle", [["r", I(1)]]], ["winst", "Square", []]], "abc"),
+    (["wproto", "HasX", "x"], [["winst", "Bag", [["x", I(1)]]], ["winst", "Bag", []], ["winst", "Bag", [["y", I(2)]]]], "proto"),
+    (["wtype", "Positive", ["positive"]], [I(-5), I(7), I(0), ["bool", True], I(3)], "value"),
+    (["wtype", "HasA", ["hasattr", "a"]], [["winst", "Bag", [["a", I(1)]]], ["winst", "Bag", []]], "attr"),
+    (["wtype", "NonEmpty", ["truthy_len"]], [["list", []], ["list", [I(1)]], S(""), S("a")], "value"),
+    (["tuple", [["cls", "str"], ["wtype", "Positive", ["positive"]]]], [I(-3), I(3), S("s")], "value"),
+    (["tuple", [["wabc", "Shape"], ["cls", "int"]]], [["winst", "Circle", []], I(1)], "abc"),
+]
+
+
 def hostile_type(rng):
     k = rng.choice(K_SOME)
     t = ["Htype", {"name": "R" + k, "instancecheck": ["raise", k]}]
@@ -180,9 +205,39 @@ def hostile_bound(rng):
 
 LBOUND_INTS = [-1, 0, 1, 2, 3, 5]
 LBOUNDS_OPAQUE = [["float", (2.5).hex()], ["nan"], S("a"), NONE, ["inf"], ["list", []], ["tuple", [I(1)]]]  # none of them == an int
-REGEX = [S("a+"), S("ab"), S(""), S(".*"), S("^a"), S("b$"), S("[0-9]+"), S("A"), S("a.b"), S("("), I(5), ["bytes", "a"],
-         ["pat", "a+", 0], ["pat", "A", 2], S("a|b"), NONE]
+# regex text -> strings it matches (the generators derive neighbours: prefixed, suffixed, on another line, other case)
+REGEX_SAMPLES = {
+    "a+": ["a", "aa"], "ab": ["ab"], "": [""], ".*": ["x"], "^a": ["a", "ab"], "b$": ["b", "ab"], "[0-9]+": ["7", "42"],
+    "A": ["A"], "a.b": ["axb", "a\nb"], "a|b": ["a", "b"],
+    # anchors and alternations: a leading ^ / trailing $ binds to ONE alternative only
+    "^ab|cd": ["ab", "cd"], "^\\d+|N/A": ["12", "N/A"], "^$|x": ["", "x"], "ab|^cd": ["ab", "cd"], "^(ab|cd)": ["ab", "cd"],
+    "^ab|^cd": ["ab", "cd"], "ab|cd$": ["ab", "cd"], "ab$|cd": ["ab", "cd"], "(?m)^b": ["b"], "x*": ["", "xx"],
+    "\\Aab|cd": ["ab", "cd"], "(?:^ab)|cd": ["ab", "cd"], "^a|b|c$": ["a", "b", "c"],
+}
+REGEX_TEXTS = list(REGEX_SAMPLES)
+REGEX = ([S(t) for t in REGEX_TEXTS] + [S("("), I(5), NONE, ["bytes", "a"], ["bytes", "^ab|cd"], ["bytes", "ab|cd$"],
+         ["pat", "a+", 0], ["pat", "A", 2], ["pat", "^ab|cd", 0], ["pat", "^ab|cd", 8], ["pat", "ab$|cd", 0], ["bpat", "^ab|cd", 0]])
 FLAGS = [0, 0, 0, 2, 16, 8, 18]
+
+
+def regex_text(d):
+    return d[1] if d[0] in ("str", "pat", "bytes", "bpat") and isinstance(d[1], str) else None
+
+
+def derived_values(d, rng=None, limit=None):
+    """values around a regex: what it matches, shifted to an offset > 0, followed by junk, on a second line, other case"""
+    t = regex_text(d)
+    if t is None:
+        return [S("a")]
+    out = []
+    for m in REGEX_SAMPLES.get(t, ["a"]):
+        for v in (m, "x" + m, m + "x", "x\n" + m, m + "\nx", m.swapcase(), "id: " + m):
+            if v not in out:
+                out.append(v)
+    if rng is not None and limit is not None and len(out) > limit:
+        out = rng.sample(out, limit)
+    tag = "bytes" if d[0] in ("bytes", "bpat") else "str"
+    return [[tag, v] for v in out]
 FUNCS = ["dflt", "dflt", "dflt", {"named": {"s": "fullmatch"}}, {"named": {"s": "fullmatch"}}, {"named": {"s": "search"}},
          {"named": {"s": "search"}}, {"named": {"s": "search"}}, {"named": {"s": "match"}}, {"named": {"s": "match"}},
          {"named": {"s": "match"}}, {"named": {"s": "findall"}}, {"named": {"s": "compile"}}, {"named": {"s": "sub"}}]
@@ -318,7 +373,7 @@ def make_objs(params):
 
 
 _BLANK = {"outcome": None, "retNone": True, "unchanged": True, "trace": [], "build2": None, "eq": "f",
-          "hash1": None, "hash2": None, "hashAgree": True}
+          "hash1": None, "hash2": None, "hashAgree": True, "more": []}
 
 
 def _hash_of(v):
@@ -338,25 +393,42 @@ def observe(case):
         if cfg.get("inst_none"):
             inst = None
         probes: dict = {}
+        W.new_world()
         objs1 = make_objs(P)
         value = W.mk(P["value"])
-        before = W.fp(value)
         try:
             v1 = Builder(P, objs1, probes, cfg).mk(case["tree"])
         except BaseException as e:  # noqa: BLE001
             return dict(_BLANK, build=W.kind(e))
-        obs = dict(_BLANK, build=None)
-        del LOG[:]
         CTX[0], CTX[1] = inst, attribute
-        try:
-            ret = v1(inst, attribute, value)
-        except BaseException as e:  # noqa: BLE001
-            obs["outcome"] = W.kind(e)
-        else:
-            obs["retNone"] = ret is None
-        obs["trace"] = [list(e) for e in LOG]
-        del LOG[:]
-        obs["unchanged"] = W.fp(value) == before
+
+        def call(v, x):
+            before = W.fp(x)
+            step = {"outcome": None, "retNone": True}
+            del LOG[:]
+            try:
+                ret = v(inst, attribute, x)
+            except BaseException as e:  # noqa: BLE001
+                step["outcome"] = W.kind(e)
+            else:
+                step["retNone"] = ret is None
+            step["trace"] = [list(e) for e in LOG]
+            del LOG[:]
+            step["unchanged"] = W.fp(x) == before
+            return step
+
+        obs = dict(_BLANK, build=None, more=[])
+        obs.update(call(v1, value))
+        # the rest of the history: the world may change between calls; the same validator object or one
+        # freshly built from the same expression and parameter objects
+        hist = [value]
+        for st in P.get("history", []):
+            for op in st.get("ops", []):
+                W.apply_op(op, hist)
+            x = hist[st["ref"]] if "ref" in st else W.mk(st["value"])
+            hist.append(x)
+            v = Builder(P, objs1, probes, cfg).mk(case["tree"]) if st.get("fresh") else v1
+            obs["more"].append(call(v, x))
         if case.get("purge"):
             re.purge()
         try:
@@ -451,17 +523,30 @@ def _uses(tree):
 def complete(spec):
     """spec (tree, tree2, purge, params, cfg) -> full case with value table and oracle rows"""
     P = spec["params"]
+    W.new_world()
     objs1 = make_objs(P)
     objs2 = make_objs(P)
     orc = W.Oracle(P, objs1)
-    root = orc.reg(W.mk(P["value"]))
+    root_obj = W.mk(P["value"])
+    root = orc.reg(root_obj)
     assert root == 0
     orc.fill(spec["tree"], 0)
+    # later calls: the primitives are evaluated when the call is made, after the world changes before it
+    hist, more = [root_obj], []
+    for st in P.get("history", []):
+        for op in st.get("ops", []):
+            W.apply_op(op, hist)
+        x = hist[st["ref"]] if "ref" in st else W.mk(st["value"])
+        hist.append(x)
+        vid = orc.reg(x)
+        more.append(vid)
+        orc.fill(spec["tree"], vid)
     u1, re1 = _uses(spec["tree"])
     u2, re2 = _uses(spec["tree2"])
     W.build_rows(orc.put, objs1, re1 | re2)
     W.eq_rows(orc.put, objs1, objs2, u1, u2, re1, re2)
     case = dict(spec)
+    case["more"] = more
     case["vals"] = orc.vrows
     case["prim"] = orc.rows_json()
     case["info"] = {"in_literal_differs": orc.in_literal_differs}
@@ -481,6 +566,7 @@ class Ctx:
         self.P = {"types": [], "opts": [], "bounds": [], "lbounds": [], "regex": [], "msgs": [None, "custom", "{validator!r} {exc_types!r}"],
                   "probes": {}, "salt": rng.randrange(1 << 30), "value": NONE}
         self.suggest = []   # value descriptors likely to satisfy some leaf
+        self.world = []     # world types used: (type, values, kind) -- drives the histories
 
     def add(self, table, d):
         t = self.P[table]
@@ -516,6 +602,11 @@ def gen_leaf(ctx, allow_junk=True):
     rng = ctx.rng
     c = rng.random()
     if c < 0.16:
+        if rng.random() < 0.14:
+            d, vals, kind = rng.choice(WORLD_TYPES)
+            ctx.suggest += vals
+            ctx.world.append((d, vals, kind))
+            return {"instOf": {"t": ctx.add("types", d)}}
         d = hostile_type(rng) if rng.random() < 0.12 else rng.choice(TYPES)
         if d[0] == "cls" and d[1] in _SAMPLE_OF_TYPE:
             ctx.suggest.append(_SAMPLE_OF_TYPE[d[1]])
@@ -546,9 +637,9 @@ def gen_leaf(ctx, allow_junk=True):
     if c < 0.66:
         d = rng.choice(REGEX)
         fl = rng.choice(FLAGS)
-        if d[0] == "pat" and rng.random() < 0.8:
+        if d[0] in ("pat", "bpat") and rng.random() < 0.8:
             fl = 0
-        ctx.suggest += [S("aa"), S("ab"), S("xab"), S("a\nb"), S("7"), S("aab")]
+        ctx.suggest += derived_values(d, rng, 6) + [S("aa"), S("xab")]
         return {"matchesRe": {"r": ctx.add("regex", d), "flags": fl, "func": rng.choice(FUNCS)}}
     if c < 0.72:
         ctx.suggest.append(["fn", "len"])
@@ -785,11 +876,75 @@ def mutate_shape(rng, t):
     return t
 
 
+def sibling(rng, v):
+    """a value of the same class in another state, or an equal value of another class"""
+    tag = v[0]
+    if tag == "int":
+        return rng.choice([I(-v[1]), I(v[1] + 1), I(0), ["bool", bool(v[1])], ["float", float(v[1]).hex()], I(v[1])])
+    if tag == "bool":
+        return rng.choice([I(int(v[1])), ["bool", not v[1]], ["float", float(v[1]).hex()]])
+    if tag == "float":
+        return rng.choice([I(1), ["float", (2.5).hex()], ["nan"]])
+    if tag in ("str", "bytes"):
+        return [tag, rng.choice([v[1] + "x", "x" + v[1], v[1][:-1], v[1].swapcase(), ""])]
+    if tag in ("list", "tuple"):
+        return [tag, rng.choice([v[1] + [I(9)], v[1][:-1], list(reversed(v[1])), []])]
+    if tag == "dict":
+        return [tag, rng.choice([v[1][:-1], v[1] + [[S("zz"), NONE]], []])]
+    if tag in ("set", "frozenset"):
+        return [tag, v[1][:-1]]
+    if tag == "winst":
+        return [tag, v[1], rng.choice([[], [["x", I(1)]], [["a", I(2)]], v[2] + [["z", NONE]]])]
+    return v
+
+
+def gen_history(ctx, root):
+    """0..4 further calls: the same object again, siblings (same class, other state; equal value, other class),
+    unrelated values -- with changes of the world in between when the expression uses types that can see them"""
+    rng = ctx.rng
+    steps = []
+    n = rng.choice([0, 0, 0, 1, 2, 2, 3, 4]) if not ctx.world else rng.choice([1, 2, 3, 3, 4])
+    descs = [root]          # descriptor (as created) of each history object
+    for _ in range(n):
+        st = {"ops": [], "fresh": rng.random() < 0.4}
+        c = rng.random()
+        # world changes
+        if ctx.world and rng.random() < 0.6:
+            d, vals, kind = rng.choice(ctx.world)
+            abc_d = d if d[0] == "wabc" else next((e for e in d[1] if isinstance(e, list) and e[0] == "wabc"), None) if d[0] == "tuple" else None
+            winsts = [i for i, e in enumerate(descs) if e[0] == "winst"]
+            if kind == "abc" and abc_d is not None and winsts:
+                st["ops"].append(["register", abc_d, ["wcls", descs[rng.choice(winsts)][1]]])
+            elif kind in ("proto", "attr") and winsts:
+                i = rng.choice(winsts)
+                name = "x" if kind == "proto" else "a"
+                st["ops"].append(rng.choice([["delattr", i, name], ["setattr", i, name, I(5)]]))
+        lists = [i for i, e in enumerate(descs) if e[0] == "list"]
+        if lists and rng.random() < 0.25:
+            st["ops"].append(["append", rng.choice(lists), rng.choice(VALUES_PLAIN[:24])])
+        if c < 0.3:
+            st["ref"] = rng.randrange(len(descs))
+            descs.append(descs[st["ref"]])
+        elif c < 0.7:
+            base = rng.choice(descs)
+            if ctx.world and rng.random() < 0.5:
+                st["value"] = rng.choice(rng.choice(ctx.world)[1])
+            else:
+                st["value"] = sibling(rng, base)
+            descs.append(st["value"])
+        else:
+            st["value"] = pick_value(ctx)
+            descs.append(st["value"])
+        steps.append(st)
+    return steps
+
+
 def random_spec(rng, depth=None):
     ctx = Ctx(rng)
     depth = depth or rng.choice([1, 2, 2, 3, 3, 3, 4, 4, 4])
     tree = gen_tree(ctx, depth, allow_junk=True)
     ctx.P["value"] = pick_value(ctx)
+    ctx.P["history"] = gen_history(ctx, ctx.P["value"])
     tree2, purge, label = variant(ctx, tree)
     cfg = {"api": rng.choice(["attr.s", "define"]), "inst_none": rng.random() < 0.3, "explicit_none": rng.random() < 0.3,
            "variant": label}
@@ -859,9 +1014,92 @@ def exhaustive_specs(rng, max_depth):
                    "cfg": {"api": "attr.s", "inst_none": False, "explicit_none": False, "variant": "same"}}
 
 
+_CFG0 = {"api": "attr.s", "inst_none": False, "explicit_none": False, "variant": "same"}
+_FUNC_ARGS = ["dflt", {"named": {"s": "fullmatch"}}, {"named": {"s": "search"}}, {"named": {"s": "match"}}]
+
+
+def _wrappers(leaf):
+    yield leaf
+    yield {"optional": {"v": leaf}}
+    yield {"not_": {"v": leaf, "msg": 0, "exc": "dflt"}}
+    yield {"or_": {"vs": [{"instOf": {"t": 0}} if False else {"minLen": {"b": {"int": {"n": 99}}}}, leaf]}}
+    yield {"and_": {"vs": [leaf, leaf]}}
+    yield {"deepIter": {"m": leaf, "it": "noneV"}}
+
+
+def regex_specs(rng, full):
+    """matches_re over every regex of the pool x flags x func x (text | bytes | precompiled), each case a history
+    over the values derived from the regex (matching at offset 0, at an offset > 0, before junk, on another line)"""
+    flags = [0, 2, 8, 16] if full else [0, 8]
+    for d in REGEX:
+        t = regex_text(d)
+        if t is None or t == "(":
+            continue
+        forms = [(d, fl) for fl in (flags if d[0] in ("str", "bytes") else [0])]
+        if d[0] == "str":
+            forms += [(["pat", t, fl], 0) for fl in flags]
+        for (rd, fl) in forms:
+            vals = derived_values(rd)
+            for fn in _FUNC_ARGS:
+                leaf = {"matchesRe": {"r": 0, "flags": fl, "func": fn}}
+                ws = list(_wrappers(leaf))
+                for w in (ws if full else [ws[0], rng.choice(ws[1:])]):
+                    root, rest = vals[0], vals[1:]
+                    if "deepIter" in w:
+                        root, rest = ["list", vals[:4]], [["list", vals[4:11]], ["tuple", list(reversed(vals))[:3]]]
+                    P = Ctx(rng).P
+                    P.update(regex=[rd], value=root, salt=3,
+                             history=[{"ops": [], "fresh": i % 3 == 2, "value": v} for i, v in enumerate(rest)])
+                    yield {"tree": w, "tree2": copy.deepcopy(w), "purge": False, "params": P, "cfg": dict(_CFG0)}
+
+
+_HISTORIES = [
+    # (root, [(ops, value | ref, fresh)])
+    (I(-5), [([], I(7), False), ([], I(0), True), ([], ["bool", True], False), ([], I(-5), True)]),
+    (I(1), [([], ["bool", True], False), ([], ["float", (1.0).hex()], True), ([], S("1"), False)]),
+    (["winst", "Circle", []], [([["register", ["wabc", "Shape"], ["wcls", "Circle"]]], 0, False), ([], ["winst", "Circle", []], True),
+                               ([], ["winst", "Square", []], False)]),
+    (["winst", "Bag", [["x", I(1)]]], [([], ["winst", "Bag", []], False), ([["delattr", 0, "x"]], 0, True),
+                                       ([["setattr", 1, "x", I(2)]], 1, False), ([], ["winst", "Bag", [["a", I(1)]]], True)]),
+    (["list", []], [([["append", 0, I(1)]], 0, False), ([["append", 0, S("a")]], 0, True), ([], ["list", [I(1)]], False)]),
+    (S(""), [([], S("a"), False), ([], ["bytes", "a"], True), ([], NONE, False), ([], S(""), True)]),
+]
+
+
+def history_specs(rng, full):
+    """instance_of (and a few other leaves) under wrappers over scripted histories: values of one class in different
+    states, equal values of different classes, ABC registration / attribute changes between the calls"""
+    types = [["cls", "int"], ["cls", "bool"], ["tuple", [["cls", "int"], ["cls", "str"]]], ["cls", "Sized"], ["cls", "Hashable"]]
+    types += [w[0] for w in WORLD_TYPES]
+    leaves = [("types", t, {"instOf": {"t": 0}}) for t in types]
+    leaves += [("opts", ["tuple", [I(1), S("")]], {"in_": {"o": 0}}), ("bounds", I(0), {"num": {"op": "gt", "b": 0}}),
+               ("none", None, {"minLen": {"b": {"int": {"n": 1}}}}), ("none", None, "isCallable")]
+    for table, d, leaf in leaves:
+        ws = list(_wrappers(leaf))
+        for w in (ws if full else [ws[0], rng.choice(ws[1:])]):
+            for root, steps in _HISTORIES:
+                P = Ctx(rng).P
+                if table != "none":
+                    P[table] = [d]
+                if "deepIter" in w:
+                    r0 = ["list", [root]]
+                    hist = [{"ops": ops, "fresh": fr, **({"value": ["list", [v]]} if not isinstance(v, int) else {"value": r0})}
+                            for ops, v, fr in steps if not any(op[0] in ("delattr", "setattr", "append") for op in ops)]
+                    P.update(value=r0, history=hist, salt=5)
+                else:
+                    hist = [{"ops": ops, "fresh": fr, **({"ref": v} if isinstance(v, int) else {"value": v})} for ops, v, fr in steps]
+                    P.update(value=root, history=hist, salt=5)
+                yield {"tree": w, "tree2": copy.deepcopy(w), "purge": False, "params": P, "cfg": dict(_CFG0)}
+
+
 def gen_cases(tier, rng):
-    # a deterministic block: every expression of depth <= 1 (quick) / <= 2 (thorough) over the reduced pools
+    # deterministic blocks: every expression of depth <= 1 (quick) / <= 2 (thorough) over the reduced pools;
+    # the regex pool x flags x funcs x forms over derived values; scripted histories over the type pool
     for s in exhaustive_specs(rng, 1 if tier == "quick" else 2):
+        yield complete(s)
+    for s in regex_specs(rng, tier != "quick"):
+        yield complete(s)
+    for s in history_specs(rng, tier != "quick"):
         yield complete(s)
     n = 1 << 30
     for _ in range(n):
@@ -895,6 +1133,9 @@ def dist(case, obs):
         "trace_len": min(len(o.get("trace", [])), 6),
         "n_values": min(len(case.get("vals", [])), 12),
         "retNone": o.get("retNone"),
+        "history_len": len(case["params"].get("history", [])),
+        "history_ops": sorted({op[0] for st in case["params"].get("history", []) for op in st.get("ops", [])}) or "none",
+        "history_outcomes": len({json.dumps(x.get("outcome")) for x in [o] + o.get("more", [])}) if o.get("build") is None else "n/a",
         "in_literal_differs": case.get("info", {}).get("in_literal_differs", 0) > 0,
     }
 
@@ -920,8 +1161,14 @@ def shrink(case):
                     yield complete(dict(s, tree=t2, tree2=copy.deepcopy(t2), purge=False))
     if s["tree2"] != s["tree"] or s.get("purge"):
         yield complete(dict(s, tree2=copy.deepcopy(s["tree"]), purge=False))
+    # shorten the history from the end; make every call use the original validator object
+    hist = s["params"].get("history", [])
+    if hist:
+        yield complete(dict(s, params=dict(s["params"], history=hist[:-1])))
+        if any(st.get("fresh") for st in hist):
+            yield complete(dict(s, params=dict(s["params"], history=[dict(st, fresh=False) for st in hist])))
     for v in (NONE, I(1), S("a"), ["list", []]):
-        if s["params"]["value"] != v:
+        if s["params"]["value"] != v and not hist:
             P = dict(s["params"], value=v)
             yield complete(dict(s, params=P))
     # members of a container value
@@ -947,7 +1194,7 @@ def neighbours(case, rng):
     yield from shrink(case)
 
 
-LEVEL_TEXT = ("38 Lean theorems, all by structural induction over arbitrary validator expressions (any depth, any list lengths), "
+LEVEL_TEXT = ("40 Lean theorems, all by structural induction over arbitrary validator expressions (any depth, any list lengths), "
               "arbitrary values and an arbitrary oracle for the primitive tests. C18_compositional / _built: the model of "
               "validator(inst, attr, value) -- for the expression as written and for the spliced object the constructors build -- "
               "returns iff the declarative predicate tree `sat` holds and otherwise raises exactly `excOf` (the primitive's own "
@@ -964,7 +1211,9 @@ LEVEL_TEXT = ("38 Lean theorems, all by structural induction over arbitrary vali
               "parameter objects: hash contract, == regexes compile to == patterns); C18_purge_irrelevant / C18_K18a_repaired (since the "
               "K18a repair matches_re is compared by pattern and method name, so a purged re cache between two constructions no longer matters). C18_re_funcs_documented (valid_funcs table extracted from the "
               "source), C18_constructor_domain (constructor raises nothing iff arguments are in the documented domain). "
-              "C18_model_meets_spec; witness C18_K9_witness. NOT proved, only observed: the primitive tests "
+              "C18_history_stateless / C18_history_append (in a history of calls every call is judged by the predicate on its own value with "
+              "the primitives of its own time -- the model keeps no state; observed on the code through multi-call histories with world "
+              "changes). C18_model_meets_spec; witness C18_K9_witness. NOT proved, only observed: the primitive tests "
               "themselves (isinstance, in, operator.*, len, re.*, callable, iteration, value[key]) are oracle inputs computed with "
               "plain Python from the documented definition; 'value unchanged' is an observation (canonical description before/after). "
               "The model (src/attr/validators.py and and_/_AndValidator in _make.py, incl. constructor argument checks and the "
